@@ -520,11 +520,141 @@ def check_combination_table(db, chk, prefix="TABLE-1"):
     return len(table)
 
 
+def _whole_def(c, l):
+    """The only definition of the whole local (writes *through* it, `*entry = ..`, do not redefine the reference)."""
+    w = [df for df in c.defs.get(l, {"whole": []})["whole"] if df[1] in c.reach0]
+    return w[0] if len(w) == 1 else None
+
+
+def _side(c, place, depth=12):
+    """Which operand of the binary operator a place belongs to: 1 (self), 2 (rhs) or None.  A value obtained by a call
+    (map.get(k), iter.next(), x.into_iter()) belongs to the side of the call's receiver, not of its other arguments (the key
+    used to look a fragment up in the other map does not make the entry found there 'ours')."""
+    if place is None or depth == 0:
+        return None
+    l = place[0]
+    proj = [e for e in place[1:] if isinstance(e, dict) and str(e.get("f", "")).isdigit()]
+    if 1 <= l <= 2 and c.fn.locals[l].get("name"):
+        return l
+    d = _whole_def(c, l)
+    if not d:
+        return l if l in (1, 2) else None
+    if d[0] == "call":
+        a = d[2]["args"]
+        return _side(c, op_place(a[0]), depth - 1) if a else None
+    if d[0] == "assign":
+        rv = d[3]["rv"]
+        if rv["r"] == "agg" and not rv.get("adt") and proj:
+            k = int(proj[0]["f"])
+            return _side(c, op_place(rv["ops"][k]), depth - 1) if k < len(rv["ops"]) else None
+        p = rv.get("place") if rv["r"] == "ref" else (op_place(rv["op"]) if rv["r"] == "use" else None)
+        return _side(c, list(p) + proj if p else None, depth - 1)
+    return None
+
+
+def _from_lookup(c, place, depth=8):
+    """The Option was produced by a map lookup (BTreeMap::get / get_mut), as opposed to an iterator's next()."""
+    if place is None or depth == 0:
+        return False
+    d = _whole_def(c, place[0])
+    if not d:
+        return False
+    if d[0] == "call":
+        return any(x in nm for nm in callee_names(d[2]) for x in ("::get_mut", "BTreeMap::<K, V, A>::get", "::get::<"))
+    if d[0] == "assign":
+        rv = d[3]["rv"]
+        if rv["r"] == "agg" and not rv.get("adt"):
+            proj = [e for e in place[1:] if isinstance(e, dict) and str(e.get("f", "")).isdigit()]
+            if proj and int(proj[0]["f"]) < len(rv["ops"]):
+                return _from_lookup(c, op_place(rv["ops"][int(proj[0]["f"])]), depth - 1)
+            return False
+        p = rv.get("place") if rv["r"] == "ref" else (op_place(rv["op"]) if rv["r"] == "use" else None)
+        return _from_lookup(c, p, depth - 1)
+    return False
+
+
+# per fragment present on both sides: what the operator must do to the left entry, by set algebra over {Full, Partial}
+#   need = effects that must be present in the arm, deny = effects that must not
+SELECTION_TABLE = {
+    "bitor_assign": {("Full", "Full"): (set(), {"store-Partial", "remove"}), ("Full", "Partial"): (set(), {"store-Partial", "remove"}),
+                     ("Partial", "Full"): ({"store-Full"}, {"remove"}), ("Partial", "Partial"): ({"bitmap|="}, {"remove", "store-Full"})},
+    "bitand_assign": {("Full", "Full"): (set(), {"store-Partial", "remove"}), ("Full", "Partial"): ({"store-Partial"}, {"remove"}),
+                      ("Partial", "Full"): (set(), {"store-Full", "bitmap&=", "bitmap|=", "bitmap-="}), ("Partial", "Partial"): ({"bitmap&="}, {"store-Full"})},
+    "sub_assign": {("Full", "Full"): ({"remove"}, set()), ("Partial", "Full"): ({"remove"}, set()),
+                   ("Full", "Partial"): ({"store-Partial", "bitmap-="}, set()), ("Partial", "Partial"): ({"bitmap-="}, {"store-Full"})},
+}
+
+
+def check_selection_table(db, chk, R="TABLE-3"):
+    """RowIdTreeMap |=, &=, -= : for a fragment present on both sides, the four (Full|Partial) x (Full|Partial) cases."""
+    chk.rule(R, "RowIdTreeMap |=, &=, -= treat full-fragment markers and bitmaps as sets: per-case effects on the left entry")
+    n = 0
+    for op, pat in (("bitor_assign", r"RowIdTreeMap as std::ops::BitOrAssign>::bitor_assign$"),
+                    ("bitand_assign", r"RowIdTreeMap as std::ops::BitAndAssign<&utils::mask::RowIdTreeMap>>::bitand_assign$"),
+                    ("sub_assign", r"RowIdTreeMap as std::ops::SubAssign<&utils::mask::RowIdTreeMap>>::sub_assign$")):
+        f = db.one(pat, file="lance-core/src/utils/mask.rs")
+        chk.analysed(f)
+        c = f.cfg
+        sel, opt = {}, []
+        for b in sorted(c.reach0):
+            si = c.switch_info(b)
+            if not (si and si["kind"] == "enum" and si["place"]):
+                continue
+            if (si["adt"] or "").endswith("RowIdSelection"):
+                sel[b] = _side(c, si["place"])
+            elif (si["adt"] or "").endswith("option::Option") and _from_lookup(c, si["place"]):
+                opt.append(b)
+        if not any(s == 1 for s in sel.values()) or not any(s == 2 for s in sel.values()):
+            raise AnchorMissing("%s: could not attribute the RowIdSelection tests to the two operands (%s)" % (op, sel))
+        for (lk, rk), (need, deny) in sorted(SELECTION_TABLE[op].items()):
+            def ef(b, lk=lk, rk=rk):
+                if b in sel:
+                    si = c.switch_info(b)
+                    want = lk if sel[b] == 1 else (rk if sel[b] == 2 else None)
+                    return [si["label_to"][want]] if want in si["label_to"] else None
+                if b in opt:
+                    return [c.switch_info(b)["label_to"]["Some"]]
+                return None
+            reach = c.reachable_from([0], include_start=True, edge_filter=ef)
+            eff = set()
+            for i, j, s in c.aggregates(adt="RowIdSelection"):
+                if i in reach:
+                    eff.add("store-" + s["rv"]["variant"])
+            for b, t in c.calls():
+                if b not in reach:
+                    continue
+                nms = " ".join(callee_names(t))
+                if "RoaringBitmap as std::ops::BitOrAssign" in nms:
+                    eff.add("bitmap|=")
+                elif "RoaringBitmap as std::ops::BitAndAssign" in nms:
+                    eff.add("bitmap&=")
+                elif "RoaringBitmap as std::ops::SubAssign" in nms:
+                    eff.add("bitmap-=")
+                elif "BTreeMap::<K, V, A>::remove" in nms or "::remove::<" in nms:
+                    eff.add("remove")
+            # the right-hand selection copied over the left entry (`*lhs = rhs.clone()`) has the right kind by construction
+            for i, j, s in c.stmts():
+                lhs = s.get("lhs")
+                if i in reach and lhs and "*" in lhs[1:] and (s.get("rv") or {}).get("r") == "use":
+                    src = op_place(s["rv"]["op"])
+                    if src is not None and _side(c, [lhs[0]]) == 1 and _side(c, src) == 2:
+                        eff.add("store-" + rk)
+            n += 1
+            missing, forbidden = sorted(need - eff), sorted(deny & eff)
+            chk.ob(R, "%s(%s,%s)" % (op, lk, rk), not missing and not forbidden,
+                   "%s with left %s and right %s for the same fragment: effects %s%s%s" % (
+                       op, lk, rk, sorted(eff) or "none", "; MISSING %s" % missing if missing else "", "; MUST NOT %s" % forbidden if forbidden else ""), f.loc())
+    return n
+
+
 def run(db, chk):
-    chk.assume("RowIdTreeMap |, &, -, -=, contains, is_empty, new behave as the set operations they name")
+    chk.assume("RoaringBitmap |=, &=, -= and BTreeMap behave as the set / map operations they name; RowIdTreeMap contains, is_empty, new, "
+               "insert_range and serialisation are not decided here")
     chk.trusted.append("roaring / RowIdTreeMap set operations")
     n2 = check_mask_algebra(db, chk)
     n1 = check_combination_table(db, chk)
+    n3 = check_selection_table(db, chk)
+    chk.floor("TABLE-3", "RowIdTreeMap operator cases", n3, 12)
     # counted: selected 4 + not 4 + normalize 4 + bitand 16 + bitor 16 + also_block 4 + also_allow 4 + ctors 6
     chk.floor("TABLE-2", "mask algebra rows", n2, 58)
     chk.sample({"table": "RowIdMask", "rows_checked": n2})
